@@ -38,9 +38,9 @@ for c in confirms:
             ran[k] = c[k]
 meta = {
     "id": sid,
-    "breaks": agent.get("property"),
+    "breaks": agent.get("property") or agent.get("breaks"),
     "summary": agent.get("summary"),
-    "needs_to_manifest": agent.get("needs"),
+    "needs_to_manifest": agent.get("needs") or agent.get("needs_to_manifest"),
     "files": agent.get("files"),
     "origin": "written by a sub-agent that saw only the property text and its own scratch worktree of /repo; nothing from /verif",
     "confirmed_by_me": {
